@@ -3,7 +3,7 @@ CONSTANTS N = 2  Par = {"p", "q"}  NVal = 2  NGrid = 2  MaxDepth = 2  MaxLevel =
           GridSlot = "stack"  PickleSerial = "fresh"  DbSerial = "max"
 CONSTANTS Keeps <- KeepsTwo  Acts <- ActsParams  Parent0 <- ParentD  Cls0 <- ClsD
           ParOf <- McParOf  GridCls <- McGridCls  MatCls <- McMatCls
-          DbCls <- McDbCls  CopyCls <- McAllCls  CallsOf <- McCallsOf
+          DbCls <- McDbCls  CopyCls <- McAllCls  CallsOf <- McCallsOf  Unset0 <- NoUnset  Link0 <- LinkNone
 INIT Init
 NEXT Next
 CONSTRAINT Bound
